@@ -31,7 +31,7 @@ TYPES = [
     {'type': 'date', 'format': '%d/%m/%Y'}, {'type': 'any'},
 ]
 NAMES = ['a', 'ab', 'b', 'a.b', 'c1', 'c2']
-PATS = ['a', 'ab?', 'a.b', r'a\.b', r'c\d', r'[ab]', r'.*', 'b']
+PATS = ['a', 'ab?', 'a.b', r'a\.b', r'c\d', r'[ab]', r'.*', 'b', 'a|c1', 'b|a']
 
 
 def gen_cases(rng, tier):
@@ -59,6 +59,16 @@ def gen_cases(rng, tier):
         # among them an empty string is a value like any other)
         c['mv'] = rng.pick([None, None, None, ['', 'NA'], ['NA', 'x'], ['x', '2,5', 'true']])
         cases.append(c)
+    # systematically: a required field holding nulls (a null is a value Table Schema's cast rejects there), every policy,
+    # through set_type and validate
+    for pol in ('raise', 'drop', 'ignore', 'clear', 'custom4', 'custom5', 'default'):
+        rows = [{'a': '1', 'b': 'x'}, {'a': None, 'b': 'y'}, {'a': '3', 'b': None}, {'a': None, 'b': None}]
+        cases.append({'kind': 'set_type', 'names': ['a', 'b'], 'rows': rows_enc(rows), 'name': 'a', 'regex': False,
+                      'options': {'type': 'integer', 'constraints': {'required': True}}, 'policy': pol, 'transform': False, 'two': False,
+                      'shape': 'required', 'mv': None})
+        cases.append({'kind': 'validate', 'names': ['a', 'b'], 'rows': rows_enc(rows),
+                      'schema': {'a': {'type': 'integer', 'constraints': {'required': True}}, 'b': {'type': 'string'}}, 'policy': pol,
+                      'shape': 'required', 'mv': None})
     return cases
 
 
